@@ -336,6 +336,22 @@ theorem process_frame_fills_outputs (L : ℚ → ℚ) (mask frame : ℤ → ℤ 
       = (if 0 ≤ i ∧ i < n then fullPeak L mask frame fy fx c (peaks i) else out i) :=
   ⟨C08.fast_runBlocks_spec _ peaks n b hn hb out i, C08.full_runBlocks_spec _ peaks n b hn hb out i⟩
 
+/-- **C08 for the composed pipelines**: the result stored for a peak is the same for every buffer
+count, and permuting the peak list permutes the results (both pipelines) -/
+theorem process_frame_buffer_and_order_irrelevant (L : ℚ → ℚ) (mask frame : ℤ → ℤ → ℚ) (fy fx c : ℤ)
+    (peaks : ℤ → ℤ × ℤ) (σ : ℤ → ℤ) (n b b' : ℤ) (hn : 0 ≤ n) (hb : 0 < b) (hb' : 0 < b') (out : ℤ → EvalOut)
+    (i : ℤ) (hi : 0 ≤ i ∧ i < n) :
+    processFrameFast L mask frame fy fx c peaks n b out i = processFrameFast L mask frame fy fx c peaks n b' out i ∧
+    processFrameFull L mask frame fy fx c peaks n b out i = processFrameFull L mask frame fy fx c peaks n b' out i ∧
+    processFrameFast L mask frame fy fx c (fun k => peaks (σ k)) n b out i = fastPeak L mask frame fy fx c (peaks (σ i)) ∧
+    processFrameFull L mask frame fy fx c (fun k => peaks (σ k)) n b out i = fullPeak L mask frame fy fx c (peaks (σ i)) := by
+  have h1 := process_frame_fills_outputs L mask frame fy fx c peaks n b hn hb out i
+  have h2 := process_frame_fills_outputs L mask frame fy fx c peaks n b' hn hb' out i
+  have h3 := process_frame_fills_outputs L mask frame fy fx c (fun k => peaks (σ k)) n b hn hb out i
+  rw [if_pos hi] at h1 h2 h3
+  rw [if_pos hi] at h1 h2 h3
+  exact ⟨by rw [h1.1, h2.1], by rw [h1.2, h2.2], h3.1, h3.2⟩
+
 /-- non-vacuity: the composed crop-based pipeline evaluated on a concrete 4×4 frame, `c = 1`,
 identity in place of the logarithm, 2×2 mask, two peaks (one overlapping the border), buffer of 1 -/
 example :
